@@ -329,6 +329,8 @@ class Rig:
                                          auth_token=token if token is not None else {})
         except (StorageError, AuthenticationError) as e:
             err = str(e)
+        except Exception as e:  # web.py closes the connection on these
+            err = "EXC %s: %s" % (type(e).__name__, e)
         await settle(self)
         evs, eose = [], 0
         while not q.empty():
